@@ -304,7 +304,10 @@ func runPath(sh *Shared, pkg *ssa.Package, fn *ssa.Function, it workItem, sv *so
 		switch p := r.(type) {
 		case pathAbort:
 			switch {
-			case p.why == "assume" || p.why == "infeasible" || p.why == "assert-false" || p.why == "deadlock":
+			case p.why == "assert-false" || p.why == "deadlock":
+				// a complete path that ended in a (candidate) violation: explored, not pruned
+				res.status = "ok"
+			case p.why == "assume" || p.why == "infeasible":
 				res.status = "pruned"
 			case p.why == "step budget exceeded":
 				// hang candidate: confirmed (or not) by a native run under a timeout
